@@ -16,6 +16,7 @@ F_HINT_RANGE = "C11-hint-query-hashes-range-sharded"
 F_ALIVE = "C11-alive-set-change-skips-online-shard"
 F_HW = "C11-hard-write-read-hashes-online-list"
 F_REUSE = "C11-stream-reuse-ignores-destination-key"
+F_STALE_ALIVE = "C11-stale-alive-list-after-rejected-row"
 NV = 128
 FULL = (1 << NV) - 1
 
@@ -652,7 +653,13 @@ def main(ck):
                 if r:
                     extra += r
         cases = extra + cases
-    mism, evok = eval_model(ck, cases) if ok else ({}, False)
+    # a case in which the code under test panicked has no routing / mapping results to compare: it goes to the oracle loop only
+    evidx = [i for i, c in enumerate(cases) if c["label"] != "panic"]
+    if ok:
+        m0, evok = eval_model(ck, [cases[i] for i in evidx])
+        mism = {evidx[k]: v for k, v in m0.items()}
+    else:
+        mism, evok = {}, False
 
     # ---- variant detection and correspondence
     mask = FULL
@@ -707,6 +714,26 @@ def main(ck):
         if pruned and ns > 0:
             nontriv.add(json.dumps([cf, c["condtext"], c["label"], c["qm"], [(p["m"], p["tags"], p["time"]) for p in c["points"]]], sort_keys=True))
         for msg in c["oracle"]:
+            # signature of C11-stale-alive-list-after-rejected-row: database key (hashing) on a policy whose groups have different
+            # shard counts; a panic in ShardFor, or a misplaced row preceded in its batch by a row turned away for its shard key
+            counts = {len(g["shards"] or []) for g in c["groups"] or []}
+            if cf.get("dbsk") and cf["typ"] == "range" and len(counts) > 1 and ck.match_finding(F_STALE_ALIVE):
+                hit = msg.startswith("panic: ") and "index out of range" in msg and "ShardFor" in msg
+                if not hit and (msg.startswith("prune: point ") or msg.startswith("hintprune: hint ") or msg.startswith("samekey: points ")):
+                    w = msg.split()
+                    idxs = [int(w[2]), int(w[3])] if msg.startswith("samekey") else [int(w[2] if msg.startswith("prune") else w[4])]
+                    for pi in idxs:
+                        k = pi
+                        while k > 0 and not c["points"][k]["newbatch"]:
+                            k -= 1
+                        hit = hit or any(c["points"][j]["err"] == "rejected" for j in range(k, pi))
+                if hit:
+                    known_hits[F_STALE_ALIVE] = known_hits.get(F_STALE_ALIVE, 0) + 1
+                    if known_hits[F_STALE_ALIVE] == 1:
+                        ck.known_finding(F_STALE_ALIVE, "after a row turned away for its shard key the next row of that shard group is routed with "
+                                         "the alive list of the previous group: %s | database key %s, shard counts of the groups %s" % (
+                                             msg[:300], cf.get("dbsk"), sorted(counts)))
+                    continue
             if msg.startswith("samekey: points "):
                 # two rows with the same shard-key pairs in one group went to different shards: the stale batch key
                 a, b = int(msg.split()[2]), int(msg.split()[3])
